@@ -105,6 +105,31 @@ def indexOfNat [BEq α] : List α → α → Option Nat
 /-- `xs.index(v)` (`ValueError` when absent) -/
 def indexOf [BEq α] (xs : List α) (v : α) : Option Int := (indexOfNat xs v).map Int.ofNat
 
+/-- `del xs[i]` (`IndexError` outside `-len .. len-1`) -/
+def delItem (xs : List α) (i : Int) : Option (List α) :=
+  if 0 ≤ i then (if i.toNat < xs.length then some (xs.eraseIdx i.toNat) else none)
+  else if -(xs.length : Int) ≤ i then some (xs.eraseIdx ((xs.length : Int) + i).toNat)
+  else none
+
+/-- `xs.insert(i, v)` (the position is clamped like a slice bound: never raises) -/
+def insert (xs : List α) (i : Int) (v : α) : List α :=
+  let k := normIdx xs.length i
+  xs.take k ++ v :: xs.drop k
+
+/-- `while len(xs) < n: xs.append(v)` -/
+def padTo (xs : List α) (n : Int) (v : α) : List α := xs ++ List.replicate (n - (xs.length : Int)).toNat v
+
+/-- position of the first occurrence of `t` in `s` at or after `k` places from the start of the original text -/
+def findFrom (t : Str) : Str → Nat → Option Nat
+  | [], k => if t.isEmpty then some k else none
+  | c :: cs, k => if t.isPrefixOf (c :: cs) then some k else findFrom t cs (k + 1)
+
+/-- `s.find(t)`: index of the first occurrence, `-1` when there is none -/
+def find (s t : Str) : Int :=
+  match findFrom t s 0 with
+  | some k => (k : Int)
+  | none => -1
+
 /-! ### the definitions agree with CPython on sampled values (expected values computed with CPython 3.12) -/
 example : band (-6) 29 = 24 ∧ band 29 (-6) = 24 ∧ band (-6) (-29) = -30 ∧ band 4242 999 = 130 := by decide
 example : bor (-6) 29 = -1 ∧ bor 29 (-7) = -3 ∧ bor (-6) (-29) = -5 ∧ bor 4242 999 = 5111 ∧ bor (-100) 33 = -67 := by decide
@@ -117,6 +142,11 @@ example : slice [1, 2, 3, 4, 5] 1 (-1) = [2, 3, 4] ∧ slice [1, 2, 3, 4, 5] (-2
 example : getItem [1, 2, 3] (-1) = some 3 ∧ getItem [1, 2, 3] 3 = none ∧ getItem [1, 2, 3] (-4) = (none : Option Nat)
     ∧ setItem [1, 2, 3] (-3) 9 = some [9, 2, 3] ∧ setItem [1, 2, 3] 3 9 = none := by decide
 
+example : delItem [1, 2, 3] 1 = some [1, 3] ∧ delItem [1, 2, 3] (-1) = some [1, 2] ∧ delItem [1, 2, 3] 3 = none ∧ delItem [1, 2, 3] (-4) = (none : Option (List Nat))
+    ∧ insert [1, 2, 3] 1 9 = [1, 9, 2, 3] ∧ insert [1, 2, 3] 7 9 = [1, 2, 3, 9] ∧ insert [1, 2, 3] (-1) 9 = [1, 2, 9, 3] ∧ insert [1, 2, 3] (-9) 9 = [9, 1, 2, 3]
+    ∧ padTo [1] 3 0 = [1, 0, 0] ∧ padTo [1, 2, 3] 2 0 = [1, 2, 3] := by decide
+example : find "OpenSSH_8.9".toList "SSH".toList = 4 ∧ find "abc".toList "x".toList = -1 ∧ find "abc".toList [] = 0 ∧ find [] [] = 0
+    ∧ find "aab".toList "ab".toList = 1 ∧ find "ab".toList "abc".toList = -1 := by decide
 example : fmtD 0 = ['0'] ∧ fmtD (-12) = ['-', '1', '2'] ∧ fmtD 3072 = ['3', '0', '7', '2'] := by decide
 example : indexOf [(0 : Int), 2, 3, 1, -1] 1 = some 3 ∧ indexOf [(0 : Int), 2, 3, 1, -1] 7 = none ∧ indexOf [(5 : Int), 5] 5 = some 0 := by decide
 
